@@ -48,8 +48,19 @@ class TaggedVertex(Vertex):
     tag = 1
 
 
+class RecordVertex(Vertex):
+    """wraps a record: attributes that are not its own are served from the record through __getattr__ (hasattr and
+    v[name] must both see them)"""
+
+    def __getattr__(self, name):
+        rec = self.__dict__.get("_record") or {}
+        if name in rec:
+            return rec[name]
+        raise AttributeError(name)
+
+
 VERTEX_CLASSES = {"Vertex": None, "PlainVertex": Vertex, "SubVertex": SubVertex, "FalsyVertex": FalsyVertex,
-                  "EmptyLenVertex": EmptyLenVertex, "tagged-mixed": [FalsyVertex, TaggedVertex, Vertex]}
+                  "EmptyLenVertex": EmptyLenVertex, "tagged-mixed": [FalsyVertex, TaggedVertex, RecordVertex]}
 
 
 def h(*parts) -> int:
@@ -173,7 +184,9 @@ def set_attrs(w, attr, n):
         ob = w.o(v)
         if "tag" in vars(ob):
             delattr(ob, "tag")
-        if v <= len(attr) and attr[v - 1]:
+        if isinstance(ob, RecordVertex):
+            ob.__dict__["_record"] = {"tag": stored_value(attr[v - 1], v)} if v <= len(attr) and attr[v - 1] else {}
+        elif v <= len(attr) and attr[v - 1]:
             ob.tag = stored_value(attr[v - 1], v)
 
 
